@@ -14,7 +14,8 @@ tie_modules = cloops.regs_tie_modules
 TIE = ['Ufw.Tie.RegTable']
 RULE = ("the small-scope table family of C02 plus write-only areas (flag and missing read callback): EVERY (address, length) window position "
         "incl. starts in holes, in gaps between registers, inside multi-word registers and at area edges, for block reads (caller buffer of "
-        "exactly n atoms, pre-filled) and for range iteration with callback scripts {all 0, +1 at k, -1 at k}.  Non-trivial = length >= 1; "
+        "exactly n atoms, pre-filled) and for range iteration with callback scripts {all 0, +1 at k, -1 at k}; the mapping query additionally "
+        "with windows of 2^31 and of nearly 2^32 words from every start address.  Non-trivial = length >= 1; "
         "distinct = distinct operation text.")
 EXHAUSTIVE = {"quick": True, "thorough": True}
 ASSUMPTIONS = ["model and address-arithmetic assumptions as for C01", "the iteration callback is a script of return values (pure)"]
@@ -65,6 +66,9 @@ def cases(tier, seed):
                             script = rnd.choice(["-", "-", ",".join(["0"] * k + ["1"]), ",".join(["0"] * k + ["-1"]), ",".join(["0"] * k + ["7"])])
                             ops.append("rt.foreach %d %d %s" % (a, ln, script))
                     ops.append("rt.hole %d %d" % (a, rnd.randint(0, 12)))
+                    # windows so long that their last word, computed in 32 bits, comes round to an address at or below the first
+                    ops.append("rt.hole %d %d" % (a, 2 ** 32 - rnd.randint(1, 12)))
+                    ops.append("rt.hole %d %d" % (a, rnd.choice([2 ** 31, 2 ** 32 - a, 2 ** 32 - a + 1, 2 ** 32 - 1 - rnd.randint(13, 40)])))
                 for i in range(0, len(ops) - 3, 400):
                     cs.append(Case("r%d-%d" % (n, i), ops[:3] + ops[3 + i:3 + i + 400], ("block-read",)))
                 n += 1
